@@ -146,9 +146,17 @@ def failing_inputs():
     from bounded.common import pmap
     cands = list(_candidates())
 
-    res = [r for r in pmap(_work, cands, chunksize=32) if r]
+    # in blocks: a change that makes most inputs hang would otherwise cost the guard time once per candidate; 64 failing inputs are
+    # more than enough to find one inside the function whose obligation failed (shortest candidates first within a block)
+    res, done = [], 0
+    for i in range(0, len(cands), 768):
+        blk = cands[i:i + 768]
+        res.extend(r for r in pmap(_work, blk, chunksize=16) if r)
+        done += len(blk)
+        if len(res) >= 64:
+            break
     _CACHE["fi"] = res
-    _CACHE["n"] = len(cands)
+    _CACHE["n"] = done
     return res
 
 
